@@ -21,6 +21,7 @@ package main
 
 import (
 	"context"
+	"runtime"
 	"fmt"
 	"strconv"
 	"strings"
@@ -82,6 +83,7 @@ func run(line string) string {
 	target := actor.VerifC15Target()
 	self := actor.VerifC15Caller()
 	actor.VerifC15DrainPools()
+	actor.VerifC15TimerPool()
 	var rig *actor.VerifGrainRig
 	if grain {
 		rig = actor.VerifC15NewGrainRig()
@@ -264,6 +266,11 @@ func run(line string) string {
 		rs = append(rs, strings.Join(r, ","))
 	}
 	fin := "unfinished"
+	// timer-pool integrity: every Ask takes a timer from the pool and must give it back exactly once
+	timers := "ok"
+	if _, dup := actor.VerifC15TimerPool(); dup {
+		timers = "dup"
+	}
 	if s.AllDone() {
 		if grain {
 			closed, nresp := actor.VerifC15GrainPools()
@@ -279,7 +286,7 @@ func run(line string) string {
 			if cp == "" {
 				cp = "-"
 			}
-			fin = fmt.Sprintf("ctxpool=%s chanpool=%d mbox=%d", cp, nresp, rig.Linked())
+			fin = fmt.Sprintf("ctxpool=%s chanpool=%d mbox=%d timers=%s", cp, nresp, rig.Linked(), timers)
 			return "T " + strings.Join(trace, " ") + " | R " + strings.Join(rs, ";") + " | F " + fin
 		}
 		closed, stale := actor.VerifC15Pools()
@@ -297,7 +304,7 @@ func run(line string) string {
 			}
 			return sb.String()
 		}
-		fin = fmt.Sprintf("ctxpool=%s chanpool=%s mbox=%d", b(closed), b(stale), actor.VerifC15MailboxLen(target))
+		fin = fmt.Sprintf("ctxpool=%s chanpool=%s mbox=%d timers=%s", b(closed), b(stale), actor.VerifC15MailboxLen(target), timers)
 	}
 	return "T " + strings.Join(trace, " ") + " | R " + strings.Join(rs, ";") + " | F " + fin
 }
@@ -305,6 +312,8 @@ func run(line string) string {
 func main() {
 	// a step of this harness is a few atomic operations; a thread that has not reached its next point after
 	// a second is blocked for good
+	// one P: whatever the Asks Put into the timer pool is visible to VerifC15TimerPool
+	runtime.GOMAXPROCS(1)
 	vlib.StepTimeout = time.Second
 	vlib.Loop(run)
 }
